@@ -266,7 +266,7 @@ def fixupSyms : List String :=
   ["execl", "execlp", "execle", "execv", "execve", "execvp", "execvpe",
    "setjmp", "_setjmp", "sigsetjmp", "__sigsetjmp",
    "longjmp", "siglongjmp", "__longjmp_chk",
-   "fork", "vfork", "daemon", "posix.fork"]
+   "fork", "vfork", "daemon", "posix.fork", "_longjmp"]
 
 /-- the `if … else if …` cascade of fstack_entry (fstack.c:642-654) on `fixup->name` -/
 def cascade (name : String) : Fix :=
